@@ -324,9 +324,12 @@ fn numeric_laws(st: &State, partial: &IqSamples<Complex64>, o: &mut Outcome) {
         return;
     }
     let factor = Complex64::from_polar(s_val, 2.0 * std::f64::consts::PI * p_val);
+    // the rounding error of cis(a + b) against cis(a) * cis(b) grows with the accumulated phase
+    // (detuning cycles per sample times the number of samples): the tolerance is scaled with it
+    let cycles = 1.0 + p_val.abs() + st.detuning.concrete().unwrap_or(0.0).abs() / st.rate * b.len() as f64;
     for (i, (x, u1)) in b.iter().zip(&unit).enumerate() {
         let want = factor * u1;
-        let ok = if s_val == 0.0 { x.norm() == 0.0 } else { close(*x, want, want.norm()) };
+        let ok = if s_val == 0.0 { x.norm() == 0.0 } else { close(*x, want, want.norm().max(1.0) * cycles) };
         if !ok {
             o.violate(
                 Violation::new(if s_val == 0.0 { "zero scale" } else { "response" },
@@ -458,13 +461,20 @@ pub fn drive(ctx: &Ctx) -> Summary {
         let (kind, own) = KINDS[(h as usize) % KINDS.len()];
         let (rate_label, exact) = *rates.choose(&mut rng).unwrap();
         let rate = rate_of(rate_label);
-        let k = if h < 14 { h / 7 } else { rng.gen_range(1..=max_k) };
+        let mut k = if h < 14 { h / 7 } else { rng.gen_range(1..=max_k) };
+        if (14..35).contains(&h) && !exact {
+            // a duration whose f64 product with the rate lands just BELOW the integer (round vs floor)
+            if let Some(kk) = (1..=max_k.max(200)).filter(|kk| (*kk as f64 / rate) * rate < *kk as f64).nth((h % 5) as usize) {
+                k = kk;
+            }
+        }
         let misaligned = h % 23 == 22;
         let pad = |r: &mut rand_chacha::ChaCha8Rng| -> (u64, u64) {
-            match r.gen_range(0..3) {
+            match r.gen_range(0..4) {
                 0 => (0, 1),
                 1 if exact => (r.gen_range(1..=20), 1),
-                _ => (2 * r.gen_range(1..=20u64) - 1, 2),
+                2 => (4 * r.gen_range(0..=20u64) + 1, 4), // a quarter above an integer: ceil != round
+                _ => (2 * r.gen_range(1..=20u64) - 1, 2),  // half-odd: ceil != floor
             }
         };
         let (pad_l, pad_r) = if padded(kind) { (pad(&mut rng), pad(&mut rng)) } else { ((0, 1), (0, 1)) };
